@@ -14,6 +14,6 @@ for pid in sys.argv[1:]:
     thms = {}
     for m in re.finditer(r'^(Theorem)\s+(\w+)\s*:\s*([\s\S]*?)\.\s*\nProof\.', src, flags=re.M):
         thms[m.group(2)] = re.sub(r'\s+', ' ', m.group(3)).strip()
-    lemmas = re.findall(r'^(?:Lemma|Example)\s+(\w+)', src, flags=re.M)
+    lemmas = re.findall(r'^(?:Lemma|Example|Definition)\s+(C\d\d_\w+)', src, flags=re.M)
     json.dump({'imports': imports, 'theorems': thms, 'others': lemmas}, open(os.path.join(HERE, 'checks', 'pins', pid + '.json'), 'w'), indent=1)
     print(pid, len(thms), 'theorems pinned;', len(lemmas), 'witness/example lemmas')
